@@ -24,7 +24,9 @@ import (
 //     with its own generated MarshalJSON (plus a scalar member when nested);
 //   - UnwrapCont: a container with map<string, Wrapper{repeated MESSAGE [unwrap]}> and
 //     map<string, Wrapper{repeated SCALAR [unwrap]}> next to sibling fields of every shape;
-//   - UnwrapRoot: the combined root-map + value-unwrap message over a scalar wrapper.
+//   - UnwrapRoot: the combined root-map + value-unwrap message over a scalar wrapper;
+//   - TsAll / BytesAll / Int64All / NullableAll / EmptyAll: one message per per-field template
+//     with every variant of its annotation (so that each is exercised in every tier).
 //
 // Every shape compiles with the current generators. Names start with the feature names the
 // codec check groups by (Flatten…, Oneof…, Unwrap…).
@@ -138,8 +140,31 @@ func GenCodecFile(r *R, idx int) *ir.File {
 		fld("u32", "uint32"), fld("flt", "float"))
 	msg("UnwrapRoot", &ir.Field{Name: "entries", Kind: "message", TypeName: P + "RootList", Card: "map", MapKey: "string", Ann: ir.Ann{Unwrap: true}})
 
+	// one message per per-field ("surgery") template with every variant of its annotation, so that
+	// each of them is exercised in every tier
+	ann := func(fl *ir.Field, a ir.Ann) *ir.Field { fl.Ann = a; return fl }
+	msg("TsAll",
+		ann(&ir.Field{Name: "t_rfc3339", Kind: "message", TypeName: tsType}, ir.Ann{TsFormat: "RFC3339"}),
+		ann(&ir.Field{Name: "t_unix_seconds", Kind: "message", TypeName: tsType}, ir.Ann{TsFormat: "UNIX_SECONDS"}),
+		ann(&ir.Field{Name: "t_unix_millis", Kind: "message", TypeName: tsType}, ir.Ann{TsFormat: "UNIX_MILLIS"}),
+		ann(&ir.Field{Name: "t_date", Kind: "message", TypeName: tsType}, ir.Ann{TsFormat: "DATE"}),
+		fld("note", "string"))
+	msg("BytesAll",
+		ann(fld("b_base64", "bytes"), ir.Ann{BytesEnc: "BASE64"}), ann(fld("b_base64_raw", "bytes"), ir.Ann{BytesEnc: "BASE64_RAW"}),
+		ann(fld("b_base64url", "bytes"), ir.Ann{BytesEnc: "BASE64URL"}), ann(fld("b_base64url_raw", "bytes"), ir.Ann{BytesEnc: "BASE64URL_RAW"}),
+		ann(fld("b_hex", "bytes"), ir.Ann{BytesEnc: "HEX"}), fld("plain_b", "bytes"))
+	msg("Int64All",
+		ann(fld("big_s", "int64"), ir.Ann{Int64Enc: "NUMBER"}), ann(fld("big_u", "uint64"), ir.Ann{Int64Enc: "NUMBER"}),
+		ann(card(fld("bigs", "sint64"), "repeated"), ir.Ann{Int64Enc: "NUMBER"}), ann(fld("as_str", "fixed64"), ir.Ann{Int64Enc: "STRING"}), fld("plain_i", "int64"))
+	msg("NullableAll",
+		ann(card(fld("maybe_s", "string"), "optional"), ir.Ann{Nullable: bp(true)}), ann(card(fld("maybe_i", "int64"), "optional"), ir.Ann{Nullable: bp(true)}),
+		ann(card(fld("maybe_b", "bool"), "optional"), ir.Ann{Nullable: bp(true)}), fld("plain_s", "string"))
+	msg("EmptyAll",
+		ann(mf("meta_preserve", "Spot"), ir.Ann{EmptyBehavior: "PRESERVE"}), ann(mf("meta_null", "Spot"), ir.Ann{EmptyBehavior: "NULL"}),
+		ann(mf("meta_omit", "Spot"), ir.Ann{EmptyBehavior: "OMIT"}), fld("plain_s", "string"))
+
 	svc := &ir.Service{Name: "CodecService", BasePath: "/api"}
-	tops := []string{"FlattenTwo", "FlattenRich", "OneofFlat", "OneofNest", "UnwrapCont", "UnwrapRoot"}
+	tops := []string{"FlattenTwo", "FlattenRich", "OneofFlat", "OneofNest", "UnwrapCont", "UnwrapRoot", "TsAll", "BytesAll", "Int64All", "NullableAll", "EmptyAll"}
 	for i, t := range tops {
 		svc.Methods = append(svc.Methods, &ir.Method{Name: fmt.Sprintf("Call%d", i), Input: P + t, Output: P + tops[(i+1)%len(tops)],
 			Config: &ir.HTTPConfig{Path: fmt.Sprintf("/call%d", i), Method: "POST"}})
